@@ -1,15 +1,9 @@
-(** C18 – the save/load round trip of whole trees.
-
-    [tree_roundtrip_full] is the statement the property makes.  What is
-    machine-checked here is its base layer, [tree_roundtrip_scalar]: a tree that
-    is a single scalar of the domain survives [emit_octs]/[load_octs] in every
-    style the emitter can choose (plain, double-quoted, literal at the top
-    level).  NOT mechanised: the induction over block and flow collections,
-    i.e. that the layout written by [prep_bseq]/[prep_bmap_*]/[prep_fseq]/
-    [prep_fmap_*] (with the column-dependent [indent_to]) is read back by
-    [block_node]/[block_seq]/[block_map]/[flow_node].  That layer is tied to the
-    real code by the correspondence check only (emitted bytes and reloaded trees
-    equal on every generated tree, shapes to depth 5). *)
+(** C18 – the save/load round trip of whole trees: the statement
+    [tree_roundtrip_full], its base layer [tree_roundtrip_scalar] (a tree that is
+    a single scalar, in every style the emitter can choose) and a finite sweep of
+    the model.  The full statement is proved in Cfg/RoundTrip.v
+    ([tree_roundtrip]) by induction over items, block and flow collections
+    included. *)
 From Coq Require Import List NArith Bool Arith Lia.
 From Coq.Strings Require Import Byte.
 From RimeV Require Import Base.Bytes Cfg.Tree Cfg.Yaml Cfg.YamlProofs.
